@@ -68,6 +68,8 @@ struct Peaks {
     write: usize,
     repair: usize,
     linear: usize,
+    /// linear extraction that chooses NO file of the archive: every content block is skipped
+    linear_skip: usize,
     stored: usize,
 }
 
@@ -81,7 +83,7 @@ fn measure(case: &Case, total: usize, files: usize, piece: usize, interleave: bo
     let w = s.write(&case.cfg, &ops, sink.clone());
     let (pw, _) = m.measure();
     if w.panic.is_some() || w.from_config_err.is_some() || w.results.iter().any(Result::is_err) {
-        v.push(Violation::new("workload-write-failed", "write", format!("{:?} {:?}", w.panic, w.results.iter().find(|r| r.is_err()))));
+        v.push(Violation::new("workload-write-failed", "write", format!("writing the workload failed: panic {:?}, from_config {:?}, first failed call {:?}", w.panic, w.from_config_err, w.results.iter().find(|r| r.is_err()))));
         let _ = std::fs::remove_file(&spill);
         return None;
     }
@@ -106,8 +108,15 @@ fn measure(case: &Case, total: usize, files: usize, piece: usize, interleave: bo
     if lin.panic.is_some() || !matches!(lin.result, Some(Ok(()))) {
         v.push(Violation::new("streaming-linear-failed", "linear", format!("linear extraction of the streamed archive: {:?} {:?} {:?}", lin.panic, lin.open, lin.result)));
     }
+    drop(lin);
+    let m = heap_mark();
+    let lin = s.linear_opts(Rc::new(Vec::new()), &rcfg, &["not-in-the-archive".to_string()], &Sched::Full, None, false);
+    let (ps, _) = m.measure();
+    if lin.panic.is_some() || !matches!(lin.result, Some(Ok(()))) {
+        v.push(Violation::new("streaming-linear-failed", "linear-skip", format!("linear extraction choosing no file of the streamed archive: {:?} {:?} {:?}", lin.panic, lin.open, lin.result)));
+    }
     let _ = std::fs::remove_file(&spill);
-    Some(Peaks { write: pw, repair: pr, linear: pl, stored })
+    Some(Peaks { write: pw, repair: pr, linear: pl, linear_skip: ps, stored })
 }
 
 impl Prop for C15 {
@@ -118,7 +127,7 @@ impl Prop for C15 {
         "exploration"
     }
     fn rule(&self) -> String {
-        format!("run = on the unmodified `prod` build, for one layer set x data class (incompressible, zeros, text) x level: a generator streams S_small then S_big bytes (quick: 8 MiB and 64 MiB; thorough: 64 MiB and up to 1 GiB) in 1 MiB pieces, or as ONE piece of S bytes generated on the fly (a single content block), into a counting sink that spills to a file in a private scratch directory (nothing of the stream is held on the heap by the harness); the spilled archive is then repaired into a counting sink and linearly extracted into counting sinks, reading from the spill file through the simulated source. A counting global allocator (wrapper around System) measures the peak live heap above the level at the start of each call. Oracle: peak <= fixed ceiling (write {} MiB, repair {} MiB, linear extraction {} MiB; calibrated at about twice the unchanged tree) and peak(S_big) <= peak(S_small) + 8 MiB + 16 bytes per 4 MiB block (8 MiB = two compression blocks, covers the compressor's own block-to-block variation; a stream buffered in memory would differ by tens of MiB); a second kind of run varies the number of files F and of non-contiguous runs R (interleaved 4 KiB pieces) at a fixed total size and checks growth <= 1 KiB per file + 64 bytes per run above the single-file peak. distinct_nontrivial = distinct (layers, data class, kind, size pair) signatures.", CEIL_WRITE / MIB, CEIL_REPAIR / MIB, CEIL_LINEAR / MIB)
+        format!("run = on the unmodified `prod` build, for one layer set x data class (incompressible, zeros, text) x level: a generator streams S_small then S_big bytes (quick: 8 MiB and 64 MiB; thorough: 64 MiB and up to 1 GiB) in 1 MiB pieces, or as ONE piece of S bytes generated on the fly (a single content block), into a counting sink that spills to a file in a private scratch directory (nothing of the stream is held on the heap by the harness); the spilled archive is then repaired into a counting sink and linearly extracted into counting sinks - once choosing the streamed files, once choosing none of them, so that every content block goes down the skip path -, reading from the spill file through the simulated source. A counting global allocator (wrapper around System) measures the peak live heap above the level at the start of each call. Oracle: peak <= fixed ceiling (write {} MiB, repair {} MiB, linear extraction {} MiB; calibrated at about twice the unchanged tree) and peak(S_big) <= peak(S_small) + 8 MiB + 16 bytes per 4 MiB block (8 MiB = two compression blocks, covers the compressor's own block-to-block variation; a stream buffered in memory would differ by tens of MiB); a second kind of run varies the number of files F and of non-contiguous runs R (interleaved 4 KiB pieces) at a fixed total size and checks growth <= 1 KiB per file + 64 bytes per run above the single-file peak. distinct_nontrivial = distinct (layers, data class, kind, size pair) signatures.", CEIL_WRITE / MIB, CEIL_REPAIR / MIB, CEIL_LINEAR / MIB)
     }
     fn assumptions(&self) -> Vec<String> {
         vec!["allocation failure is not injected (Rust aborts on OOM); the allocator seam only measures".into(), "the file system under the spill file is real, in a private directory removed after the run".into()]
@@ -181,7 +190,7 @@ impl Prop for C15 {
             if let (Some(a), Some(b)) = (a, b) {
                 let blocks = big / (4 * MIB) + 1;
                 let tol = 8 * MIB + 16 * blocks;
-                for (what, pa, pb, ceil) in [("write", a.write, b.write, CEIL_WRITE), ("repair", a.repair, b.repair, CEIL_REPAIR), ("linear-extract", a.linear, b.linear, CEIL_LINEAR)] {
+                for (what, pa, pb, ceil) in [("write", a.write, b.write, CEIL_WRITE), ("repair", a.repair, b.repair, CEIL_REPAIR), ("linear-extract", a.linear, b.linear, CEIL_LINEAR), ("linear-extract-skipping", a.linear_skip, b.linear_skip, CEIL_LINEAR)] {
                     ctx.eval();
                     ctx.probe_n(&format!("peak-{what}-KiB-max"), 0);
                     if pb > ceil || pa > ceil {
@@ -204,7 +213,7 @@ impl Prop for C15 {
             if let (Some(a), Some(b)) = (base, many) {
                 let runs = total / 4096;
                 let allowed = 1024 * files + 64 * runs + MIB;
-                for (what, pa, pb) in [("write", a.write, b.write), ("repair", a.repair, b.repair), ("linear-extract", a.linear, b.linear)] {
+                for (what, pa, pb) in [("write", a.write, b.write), ("repair", a.repair, b.repair), ("linear-extract", a.linear, b.linear), ("linear-extract-skipping", a.linear_skip, b.linear_skip)] {
                     ctx.eval();
                     if pb > pa + allowed {
                         v.push(Violation::new("memory-per-file", format!("{what}|{cls}"), format!("{what}: {files} files in {runs} interleaved runs need {pb} bytes at peak, one file needs {pa}; allowed growth {allowed}")));
